@@ -574,6 +574,7 @@ where
                 return;
             }
         }
+        rec2.push(net2.now(), Ev::LoopStart { node: node_id, inc });
         let r = raft_core.run().await;
         let (fatal, msg) = match &r {
             Ok(()) => (false, "ok".to_string()),
